@@ -54,7 +54,8 @@ class C08(Property):
     RULE = ("lookup: gene layouts (simple, multi-exon, origin-spanning, both strands; nested, identical starts, "
             "identical keys; inserted in random order) x queries (every simple interval, origin-spanning two-part, "
             "linear two-part, negative start) x both flags; exhaustive over all layouts of <= 3 genes on a line/ring of "
-            "length 5 (quick) / 6 (thorough, deep) with every query, plus random layouts of up to 12 genes on lengths up "
+            "length 4 and <= 2 genes on length 5 (quick) / <= 3 genes on length 6 and <= 4 on length 4 (thorough, deep) "
+            "with every query, plus random layouts of up to 12 genes on lengths up "
             "to 10^6; history: random protocluster/candidate/subregion layouts with create_regions, genes with core "
             "annotations, two random interleavings of the same calls; non-trivial = a query/area that keeps some gene "
             "and rejects another; distinct by canonical input")
@@ -172,24 +173,28 @@ class C08(Property):
     # ------------------------------------------------------------------ case generators
     def cases(self, rng: random.Random, tier: str, deep: bool) -> Iterator[Dict[str, Any]]:
         big = deep or tier == "thorough"
-        n_small = 6 if big else 5
         total = 0
-        for case in self.small_scope(n_small, rng, triples=True):
-            total += len(case["qs"])
-            yield case
         if big:
-            for case in self.small_scope(4, rng, triples=True, quads=True):
+            scopes = [(6, 3, None), (4, 4, None)]
+            note = "all layouts of <= 3 genes on length 6 and <= 4 genes on length 4"
+        else:
+            scopes = [(4, 3, None), (5, 2, None), (5, 3, 300)]
+            note = "all layouts of <= 3 genes on length 4 and <= 2 genes on length 5; 600 sampled 3-gene layouts on length 5"
+        for n, k, sample in scopes:
+            for case in self.small_scope(n, rng, k, sample):
                 total += len(case["qs"])
                 yield case
         self.exhaustive_done = True
-        self.extra_coverage = {"small_scope_lookups": total, "small_scope_length": n_small}
+        self.extra_coverage = {"small_scope_lookups": total, "small_scope": note}
         self.extra_evaluations = total
         for _ in range(12000 if big else 1500):
             yield self.random_lookup(rng)
         for _ in range(12000 if big else 1500):
             yield self.random_history(rng)
 
-    def small_scope(self, n: int, rng: random.Random, triples: bool, quads: bool = False) -> Iterator[Dict[str, Any]]:
+    def small_scope(self, n: int, rng: random.Random, max_genes: int, sample: Optional[int]) -> Iterator[Dict[str, Any]]:
+        """every layout of up to `max_genes` genes (with `sample`: only that many random layouts of exactly
+           `max_genes` genes) on a line and a ring of length n, each with every query"""
         for circular in (False, True):
             locs = self.all_simple(n, strands=(1,))
             # a few reverse-strand twins (same key, different location string)
@@ -198,14 +203,17 @@ class C08(Property):
                 locs += self.all_bridging(n, strands=(1,)) + [compound([[0, 1, -1], [n - 1, n, -1]])]
             queries = [(q, ov) for q in self.all_simple(n) + (self.all_bridging(n) if circular else [])
                        + self.all_two_part(n) for ov in (False, True)]
-            sizes = [1, 2] + ([3] if triples else []) + ([4] if quads else [])
-            for k in sizes:
-                for combo in itertools.combinations(range(len(locs)), k):
-                    order = list(combo)
-                    rng.shuffle(order)
-                    genes = [{"id": i, "loc": locs[j]} for i, j in enumerate(order)]
-                    yield {"f": "lookup", "len": n, "circ": circular, "genes": genes,
-                           "qs": [{"q": q, "ov": ov} for q, ov in queries]}
+            if sample is None:
+                combos: Any = itertools.chain.from_iterable(
+                    itertools.combinations(range(len(locs)), k) for k in range(1, max_genes + 1))
+            else:
+                combos = [rng.sample(range(len(locs)), max_genes) for _ in range(sample)]
+            for combo in combos:
+                order = list(combo)
+                rng.shuffle(order)
+                genes = [{"id": i, "loc": locs[j]} for i, j in enumerate(order)]
+                yield {"f": "lookup", "len": n, "circ": circular, "genes": genes,
+                       "qs": [{"q": q, "ov": ov} for q, ov in queries]}
 
     def random_lookup(self, rng: random.Random) -> Dict[str, Any]:
         n = rng.choice([6, 8, 10, 12, 20, 30, 30, 60, 100, 1000, 10**6])
@@ -420,10 +428,15 @@ class C08(Property):
                 "areas": [descr[i] for i in sorted(descr)]}
 
     def run_history(self, case: Dict[str, Any]) -> Dict[str, Any]:
-        first = self.execute(case, case["ops"])
-        if "skip" in first:
-            return first
-        second = self.execute(case, case["ops2"])
+        import logging
+        logging.disable(logging.CRITICAL)      # add_region logs before raising
+        try:
+            first = self.execute(case, case["ops"])
+            if "skip" in first:
+                return first
+            second = self.execute(case, case["ops2"])
+        finally:
+            logging.disable(logging.NOTSET)
         return {"first": first, "second": second}
 
     # ------------------------------------------------------------------ driver protocol
